@@ -2,7 +2,7 @@
    proof is `exact`.  [step_gff] is the model of one iteration of the importer's loop
    (Model/Import.v): [f0] arrives, _id_handler gives it key [id] (counters become [a]), and [id]
    is already stored. *)
-From GV Require Import Base.Prelude Base.PyStr Model.Bins Model.DB Model.Parser Model.Import Proofs.C05Proofs.
+From GV Require Import Base.Prelude Base.PyStr Model.Bins Model.DB Model.Parser Model.Import Proofs.C05Proofs Proofs.C05Inv.
 Open Scope Z_scope.
 
 Section C05.
@@ -84,3 +84,13 @@ Theorem C05_force_fields : forall fl f existing,
   merged_field fl f existing = join [44%N] (as_set (getf fl f :: flat_map (fun e => split [44%N] (getf fl e)) existing)).
 Proof. exact l_merged_field. Qed.
 Print Assumptions C05_force_fields.
+
+(* merge_strategy='merge', over a whole import (any inputs, id_spec, force_merge_fields, from empty
+   tables): at every point at most ONE of the candidates for a key agrees with a newcomer on the compared
+   columns - the candidates are pairwise different there - so the arbitrary order in which Python's
+   set() presents them cannot influence the result *)
+Theorem C05_merge_candidates_distinct : forall call force spec fs st' key f,
+  run_steps (step_gff call SMerge force spec) fs empty_st = Ok st' ->
+  (length (filter (same_checked force f) (candidates st' key)) <= 1)%nat.
+Proof. exact l_merge_candidates_distinct. Qed.
+Print Assumptions C05_merge_candidates_distinct.
